@@ -198,6 +198,147 @@ def _run_program(name, src, args_list):
     return n, bad
 
 
+# ---- generated programs of the subset ------------------------------------------------------------------------------
+def gen_function(r):
+    """source text of one function f(a: int, b: int) -> int of the supported subset: definite assignment, loops that
+    terminate (for over small ranges; while loops advance a private counter first), no division"""
+    VARS = ["x", "y", "z"]
+    cnt = [0]
+
+    def atom():
+        q = r.random()
+        if q < 0.55:
+            return r.choice(VARS + ["a", "b"])
+        return r.choice(["0", "1", "2", "3", "5", "7", "(0 - 1)", "(0 - 4)"])      # no unary minus: the front end rejects it with a diagnostic
+
+    def expr(d=0):
+        q = r.random()
+        if d >= 2 or q < 0.35:
+            return atom()
+        op = r.choice(["+", "-", "+", "-", "*"])
+        return "(%s %s %s)" % (expr(d + 1), op, expr(d + 1))
+
+    def cmp_():
+        return "%s %s %s" % (expr(1), r.choice(["<", "<=", ">", ">=", "==", "!="]), expr(1))
+
+    def cond(d=0):
+        q = r.random()
+        if d >= 1 or q < 0.5:
+            return cmp_()
+        k = r.choice([2, 2, 3])
+        op = r.choice([" and ", " or "])
+        parts = [("(%s)" % cond(d + 1)) if r.random() < 0.3 else cmp_() for _ in range(k)]
+        return op.join(parts)
+
+    def block(ind, depth, in_loop):
+        out = []
+        for _ in range(r.randint(1, 3)):
+            q = r.random()
+            pad = "    " * ind
+            if q < 0.40 or depth >= 3:
+                v = r.choice(VARS)
+                if r.random() < 0.25:
+                    out.append("%s%s %s= %s" % (pad, v, r.choice(["+", "-", "*"]), atom()))
+                else:
+                    out.append("%s%s = %s" % (pad, v, expr()))
+            elif q < 0.62:
+                out.append("%sif %s:" % (pad, cond()))
+                out += block(ind + 1, depth + 1, in_loop)
+                for _ in range(r.choice([0, 0, 1])):
+                    out.append("%selif %s:" % (pad, cond()))
+                    out += block(ind + 1, depth + 1, in_loop)
+                if r.random() < 0.5:
+                    out.append("%selse:" % pad)
+                    out += block(ind + 1, depth + 1, in_loop)
+            elif q < 0.80:
+                cnt[0] += 1
+                i = "i%d" % cnt[0]
+                rng = r.choice(["range(%d)" % r.randint(0, 4), "range(%d, %d)" % (r.randint(0, 2), r.randint(0, 5)), "range(a, %d)" % r.randint(0, 4), "range(b)"])
+                out.append("%sfor %s in %s:" % (pad, i, rng))
+                body = block(ind + 1, depth + 1, True)
+                if r.random() < 0.5:
+                    body.append("%s%s = %s + %s" % ("    " * (ind + 1), r.choice(VARS), r.choice(VARS), i))
+                out += body
+            elif q < 0.90:
+                cnt[0] += 1
+                c = "c%d" % cnt[0]
+                out.append("%s%s = 0" % (pad, c))
+                if r.random() < 0.4:
+                    out.append("%swhile %s < %d and %s:" % (pad, c, r.randint(1, 4), cmp_()))
+                else:
+                    out.append("%swhile %s < %d:" % (pad, c, r.randint(1, 4)))
+                out.append("%s%s = %s + 1" % ("    " * (ind + 1), c, c))
+                out += block(ind + 1, depth + 1, True)
+            elif in_loop:
+                out.append("%sif %s:" % (pad, cmp_()))
+                out.append("%s%s" % ("    " * (ind + 1), r.choice(["break", "continue"])))
+            else:
+                out.append("%s%s, %s = %s, %s" % (pad, VARS[0], VARS[1], VARS[1], VARS[0]))
+        return out
+    lines = ["def f(a: int, b: int) -> int:", "    x = a", "    y = b", "    z = %d" % r.randint(0, 3)]
+    lines += block(1, 0, False)
+    lines.append("    return (x * 1000003 + y * 1009 + z)")
+    return "\n".join(lines) + "\n"
+
+
+class _Guard(ast.NodeTransformer):
+    """reference copy only: every arithmetic result is checked to stay inside 62 bits (else the pair is not judged)"""
+
+    def visit_BinOp(self, node):
+        self.generic_visit(node)
+        return ast.copy_location(ast.Call(func=ast.Name(id="_chk", ctx=ast.Load()), args=[node], keywords=[]), node)
+
+    def visit_AugAssign(self, node):
+        self.generic_visit(node)
+        new = ast.Assign(targets=[node.target], value=ast.Call(func=ast.Name(id="_chk", ctx=ast.Load()), args=[
+            ast.BinOp(left=ast.Name(id=node.target.id, ctx=ast.Load()), op=node.op, right=node.value)], keywords=[]))
+        return ast.copy_location(new, node)
+
+
+class _Overflow(Exception):
+    pass
+
+
+def _chk(v):
+    if not -(1 << 62) < v < (1 << 62):
+        raise _Overflow()
+    return v
+
+
+def _run_generated(name, src, args_list):
+    from ppci.lang.python import python_to_ir, ir_to_python
+    tree = ast.fix_missing_locations(_Guard().visit(ast.parse(src)))
+    ns_ref = {"_chk": _chk}
+    exec(compile(tree, "<reference>", "exec"), ns_ref)
+    try:
+        m = python_to_ir(io.StringIO(src))
+        out = io.StringIO()
+        ir_to_python([m], out)
+        ns = {}
+        exec(out.getvalue(), ns)
+    except Exception as ex:
+        return 1, 0, [{"name": "generated function %s compiles" % name, "input": {"program": name, "source": src, "args": list(args_list[0]), "generated": True},
+                       "expected": "compiles", "observed": "raised %s: %s" % (type(ex).__name__, str(ex)[:120])}]
+    n = judged = 0
+    bad = []
+    for args in args_list:
+        n += 1
+        try:
+            want = ns_ref["f"](*args)
+        except _Overflow:
+            continue
+        judged += 1
+        try:
+            got = ns["f"](*args)
+        except Exception as e:
+            got = "raised %r" % (e,)
+        if got != want:
+            bad.append({"name": "compiled %s%r == CPython" % (name, tuple(args)), "input": {"program": name, "source": src, "args": list(args), "generated": True},
+                        "expected": repr(want), "observed": repr(got)})
+            break
+    return n, judged, bad
+
+
 def bounded(tier_name, rnd):
     rng = range(-2, 7) if tier_name == "quick" else range(-4, 12)
     ints = [(a, b) for a in rng for b in rng]
@@ -208,8 +349,23 @@ def bounded(tier_name, rnd):
         n, bad = _run_program(name, src, floats if "float" in src else ints)
         evals += n
         vio += bad
-    return {"evaluations": evals, "distinct_nontrivial": evals, "exhaustive": True,
-            "rule": "every program of a fixed corpus (%d functions covering for/while/break/continue/if/bool-ops/tuple and augmented assignment/calls/"
+    import random
+    ngen = 150 if tier_name == "quick" else 1500
+    r = random.Random(20260924)
+    gargs = [(a, b) for a in (-3, 0, 1, 2, 4) for b in (-2, 0, 1, 3, 5)]
+    gen_judged = 0
+    for i in range(ngen):
+        src = gen_function(r)
+        n, judged, bad = _run_generated("gen%d" % i, src, gargs)
+        evals += n
+        gen_judged += judged
+        if len(vio) < 8:
+            vio += bad
+    return {"evaluations": evals, "distinct_nontrivial": evals, "exhaustive": False, "generated_functions": ngen, "generated_pairs_judged": gen_judged,
+            "rule": ("generated part: %d functions from a grammar of the subset (assignments, + - *, augmented and tuple assignment, if / elif / else with and / or chains of up to 3 operands, for over range "
+                     "forms incl. range(a, k) and range(b), while with a private counter, break / continue, nesting depth <= 3) x 25 argument pairs; a pair is judged when every intermediate value of the "
+                     "CPython run stays inside 62 bits.  Fixed part: " % ngen) +
+                    "every program of a fixed corpus (%d functions covering for/while/break/continue/if/bool-ops/tuple and augmented assignment/calls/"
                     "float arithmetic) x every argument pair of the grid %s; compiled with python_to_ir, run through ir_to_python, compared with CPython; "
                     "each (program, arguments) pair is distinct" % (len(PROGRAMS), "%d..%d" % (rng[0], rng[-1])),
             "programs": len(PROGRAMS), "samples": [{"program": PROGRAMS[0][0], "source": PROGRAMS[0][1], "args": list(ints[0])}, {"program": PROGRAMS[5][0], "source": PROGRAMS[5][1], "args": list(ints[-1])}], "bound": "fixed corpus, integer arguments in %d..%d" % (rng[0], rng[-1]), "violations": vio}
@@ -223,6 +379,11 @@ def _floordiv_region(a, b):
 KNOWN_HELPERS = {"floordiv_differs": _floordiv_region}
 
 def replay_bounded(inp):
+    if inp.get("generated"):
+        n, judged, bad = _run_generated(inp["program"], inp["source"], [tuple(inp["args"])])
+        if bad:
+            return False, bad[0]
+        return True, {"program": inp["program"], "args": inp["args"], "observed": "compiled result equals CPython"}
     n, bad = _run_program(inp["program"], inp["source"], [tuple(inp["args"])])
     if bad:
         return False, bad[0]
